@@ -49,3 +49,41 @@ Lemma delims_accept :
   cls_test TWITTER_URL_RE_f false delims 47 = true /\ cls_test TWITTER_URL_RE_f false delims 63 = true /\
   cls_test TWITTER_URL_RE_f false delims 35 = true /\ cls_test TWITTER_URL_RE_f false delims 97 = false.
 Proof. vm_compute. repeat split. Qed.
+
+(* ---------------- the pre-parsed forms: a positive answer means the hostname ends with one of the site's domains,
+   as a whole label sequence (starting the hostname or following a '.') -- look-alike hosts are refused ---------------- *)
+From Coq Require Import String.
+From UV Require Import Py.Str Py.UrlLib Proofs.RegexLang.
+Local Open Scope string_scope.
+
+Definition twitter_domains : list (list N) := [lit "twitter.com"; lit "x.com"].
+Definition instagram_domains : list (list N) := [lit "instagram.com"].
+Definition telegram_domains : list (list N) := [lit "telegram.org"; lit "telegram.me"; lit "t.me"].
+
+Lemma twitter_paths : exists ps, paths TWITTER_DOMAINS_RE = Some ps /\ all_paths_in ps twitter_domains = true.
+Proof. eexists. split; vm_compute; reflexivity. Qed.
+Lemma instagram_paths : exists ps, paths INSTAGRAM_DOMAIN_RE = Some ps /\ all_paths_in ps instagram_domains = true.
+Proof. eexists. split; vm_compute; reflexivity. Qed.
+Lemma telegram_paths : exists ps, paths TELEGRAM_DOMAINS_RE = Some ps /\ all_paths_in ps telegram_domains = true.
+Proof. eexists. split; vm_compute; reflexivity. Qed.
+
+Lemma site_parsed_member f R allowed p :
+  (exists ps, paths R = Some ps /\ all_paths_in ps allowed = true) ->
+  site_parsed f R p = Ok true ->
+  exists h w, hostname p = Some h /\ In w allowed /\ label_suffix f w h.
+Proof.
+  intros (ps & Hp & Ha). unfold site_parsed. destruct (hostname p) as [h|]; [|discriminate].
+  intros [= H]. unfold rsearch, has_match in H.
+  destruct (search_domain_suffix f R ps allowed h Hp Ha) as (w & Hw & Hl); [destruct (re_search f R h); congruence|].
+  exists h, w. split; [reflexivity|]. split; assumption.
+Qed.
+
+Theorem twitter_parsed_member p : is_twitter_parsed p = Ok true ->
+  exists h w, hostname p = Some h /\ In w twitter_domains /\ label_suffix TWITTER_DOMAINS_RE_f w h.
+Proof. apply site_parsed_member. exact twitter_paths. Qed.
+Theorem instagram_parsed_member p : is_instagram_parsed p = Ok true ->
+  exists h w, hostname p = Some h /\ In w instagram_domains /\ label_suffix INSTAGRAM_DOMAIN_RE_f w h.
+Proof. apply site_parsed_member. exact instagram_paths. Qed.
+Theorem telegram_parsed_member p : is_telegram_parsed p = Ok true ->
+  exists h w, hostname p = Some h /\ In w telegram_domains /\ label_suffix TELEGRAM_DOMAINS_RE_f w h.
+Proof. apply site_parsed_member. exact telegram_paths. Qed.
